@@ -17,12 +17,12 @@ from ..gen_query import gen_document
 from ..gen_edits import edits
 from ..model import render_document
 from ..cases import render_schema
-from .c02 import run_cli
+from .c02 import run_cli, DEADLOCK_RC
 
 RULE = ("flag combinations sampled over -I / -O derives, -d {allow, warn, deny, invalid value}, -m {pub, private, crate, absent}, -p module, "
         "--fragments-other-variant, --external-enums (0-2 names), --selected-operation {an existing operation, absent}, -o DIR / none, "
         "--no-formatting / rustfmt x clean (schema, document) pairs incl. multi-operation documents, query file names with several "
-        "dots, query paths that are symbolic links, and destinations already holding a longer stale output. The file must be at <query file stem>.rs in DIR (or beside the query) and equal the header + library tokens for the "
+        "dots, query paths that are symbolic links, a 3,000-field operation whose module exceeds every pipe buffer (formatted and not), and destinations already holding a longer stale output. The file must be at <query file stem>.rs in DIR (or beside the query) and equal the header + library tokens for the "
         "corresponding options (piped through the same rustfmt when formatting). Failure clause: invalidating edits (C06 catalogue), "
         "missing / unparsable schema and query files, -p values that are not a module path, with a pre-seeded sentinel and a pre-existing output file that must survive "
         "unchanged. Non-trivial = invocation with >= 3 flags or a failure case; distinct by (arguments, document)")
@@ -147,6 +147,20 @@ def main(run):
             flag("symlinked-query")
         jobs.append({"id": "j%d" % i, "kind": "success", "argv": argv, "dir": d, "schema_path": sp, "query_path": qp, "opts": opts, "nofmt": nofmt,
                      "expected_path": expected_path, "flags": flags, "doc_text": text, "schema_text": stext, "outdir": outdir, "stale": stale})
+    # a large operation: the module is several hundred KB, far more than a pipe holds - the formatter's output has to be
+    # drained while it runs (process-tree deadlock monitor in run_cli)
+    for bi, nofmt in enumerate((True, False)):
+        d = os.path.join(root, "big%d" % bi)
+        os.makedirs(os.path.join(d, "out"))
+        sp = os.path.join(d, "schema.graphql")
+        open(sp, "w").write("type Query { v: Int s: String }\n")
+        qp = os.path.join(d, "big_operation.graphql")
+        text = "query Big {\n" + "".join("  a%d: %s\n" % (k, "v" if k % 2 else "s") for k in range(run.size(3000, 6000))) + "}\n"
+        open(qp, "w").write(text)
+        argv = ["generate", "--schema-path", sp, qp, "-o", os.path.join(d, "out")] + (["--no-formatting"] if nofmt else [])
+        jobs.append({"id": "big%d" % bi, "kind": "success", "argv": argv, "dir": d, "schema_path": sp, "query_path": qp, "opts": {"mode": "cli", "visibility": "pub"}, "nofmt": nofmt,
+                     "expected_path": os.path.join(d, "out", "big_operation.rs"), "flags": ["-o", "large-module"] + (["--no-formatting"] if nofmt else []),
+                     "doc_text": text[:400] + "...", "schema_text": "type Query { v: Int s: String }\n", "outdir": os.path.join(d, "out"), "stale": False})
     # failure clause
     fschema = gen_schema(rng)
     ffmt, fstext, fext = render_schema(fschema, rng, "sdl")
@@ -175,21 +189,25 @@ def main(run):
                       ("missing query file", lambda d: ("schema.graphql", fstext, None)),
                       ("unparsable schema", lambda d: ("schema.graphql", "type Query { x: ", "query Q { x }")),
                       ("unparsable json schema", lambda d: ("schema.json", "{ nope", "query Q { x }")),
-                      ("unsupported schema extension", lambda d: ("schema.txt", fstext, "query Q { __typename }"))]:
+                      ("unsupported schema extension", lambda d: ("schema.txt", fstext, "query Q { __typename }")),
+                      # ISO-8859-1 bytes in a comment / a description: the library cannot load such a file, neither may the CLI
+                      ("query file that is not UTF-8", lambda d: ("schema.graphql", fstext, b"# caf\xe9 au lait\nquery Q { __typename }\n")),
+                      ("schema file that is not UTF-8", lambda d: ("schema.graphql", b"# sch\xe9ma\n" + fstext.encode("utf-8"), "query Q { __typename }"))]:
         d = os.path.join(root, "f%d" % fi)
         os.makedirs(os.path.join(d, "out"))
         sname, st, qt = mk(d)
         sp = os.path.join(d, sname)
         if st is not None:
-            open(sp, "w").write(st)
+            open(sp, "wb").write(st if isinstance(st, bytes) else st.encode("utf-8"))
         qp = os.path.join(d, "bad.graphql")
         if qt is not None:
-            open(qp, "w").write(qt)
+            open(qp, "wb").write(qt if isinstance(qt, bytes) else qt.encode("utf-8"))
         target = os.path.join(d, "out", "bad.rs")
         open(target, "w").write("// previous output\n")
         open(os.path.join(d, "out", "SENTINEL"), "w").write("keep me")
         jobs.append({"id": "f%d" % fi, "kind": "failure", "argv": ["generate", "--schema-path", sp, qp, "-o", os.path.join(d, "out")], "dir": d, "label": label,
-                     "target": target, "pre": True, "doc_text": qt, "schema_text": st, "flags": ["failure"], "outdir": os.path.join(d, "out")})
+                     "target": target, "pre": True, "doc_text": qt if not isinstance(qt, bytes) else qt.decode("latin1"),
+                     "schema_text": st if not isinstance(st, bytes) else st.decode("latin1"), "flags": ["failure"], "outdir": os.path.join(d, "out")})
         fi += 1
     # flag values the CLI cannot turn into the library option: a valid (schema, query) pair, but the command must fail
     vdoc_text = "query Q { __typename }\n"
@@ -250,6 +268,8 @@ def main(run):
                     sym = "library rejects the inputs (%s) but the CLI exited 0" % (l.get("message") or "")[:100]
                 else:
                     run.count("both-rejected")
+            elif rc == DEADLOCK_RC:
+                sym = "the command never terminates: %s" % se[:200].strip()
             elif rc != 0:
                 sym = "CLI exit %s where the library succeeds: %s" % (rc, se[-200:])
             elif (new, changed) != (([], [exp_rel]) if job.get("stale") else ([exp_rel], [])) or gone:
